@@ -324,10 +324,11 @@ def solveIter (strategy : Nat) (eps : α) (s : State α) (counter : Nat) :
       (evs, some (r.1, (counter + 18446744073709551615) % 18446744073709551616))
     else (evs, some (s3, counter - 1))
 
-/-- the loop with iteration limit `fuel`; returns the final state, whether
+/-- the loop with iteration limit `fuel`, followed by the `unshrink()` the solver performs before it reports (a no-op when
+the accuracy was reached: that state is un-shrunk already); returns the final state, whether
 `QpAccuracyReached` was reported, and the number of iterations -/
 def solve (strategy : Nat) (eps : α) : Nat → State α → Nat → Nat → State α × Bool × Nat
-  | 0, s, _, it => (s, false, it)
+  | 0, s, _, it => (s.unshrink, false, it)   -- iteration limit: `m_problem.unshrink()` after the loop (repair of F-C07-8)
   | fuel+1, s, counter, it =>
     match (solveIter strategy eps s counter).2 with
     | none => ((solveIter strategy eps s counter).1.getLast?.map (·.2) |>.getD s, true, it)
